@@ -563,7 +563,7 @@ pub fn run(prop: &str) {
 
     let mut rng = Rng::new(args.seed ^ if prop == "C03" { 0x03 } else { 0x04 });
     let search = args.extra.get("search").map_or(false, |s| s == "1");
-    let n_schemas = args.budget(60, 900) * if search { 2 } else { 1 };
+    let n_schemas = args.budget(60, 600) * if search { 2 } else { 1 };
     let docs_per_schema = 6;
     let mut sampled = 0;
     for si in 0..n_schemas {
